@@ -48,6 +48,10 @@ class NumSim:
         self.repo = repo
         self.files = {}
         self.defs = {}       # (tag, 'geq'|'veq') -> dict(expr IR, guard, line)
+        # statements of Simulator.__call__/_step that no longer have their pinned text: the formulas are still
+        # translated (so that the step-by-step recursion of the model can be compared with the real run), the
+        # mismatch itself is reported by checks/c17.py as a broken obligation
+        self.soft_errors = []
         self.load_sim()
         self.load_cpts()
         self.load_sexpr()
@@ -155,7 +159,7 @@ class NumSim:
                     "Asubsdict[simcpt.Reqsym] = oo", "Zsubsdict[simcpt.Veqsym] = 0",
                     "for n, t1 in enumerate(tv):\n    self._step(r_model, n, tv, results)"):
             if wnt not in call_src:
-                raise Untranslatable('%s:%d: Simulator.__call__ no longer contains `%s`' % (F, ms['__call__'].lineno, wnt.split('\n')[0]))
+                self.soft_errors.append('%s:%d: Simulator.__call__ no longer contains `%s`' % (F, ms['__call__'].lineno, wnt.split('\n')[0]))
         # integrator name -> classes
         sel = None
         for st in ms['__call__'].body:
@@ -175,7 +179,7 @@ class NumSim:
                     "results.node_voltages[0:num_nodes, n] = results1[0:num_nodes]",
                     "results.branch_currents[:, n] = results1[num_nodes:]"):
             if wnt not in step_src:
-                raise Untranslatable('%s:%d: Simulator._step no longer contains `%s`' % (F, ms['_step'].lineno, wnt))
+                self.soft_errors.append('%s:%d: Simulator._step no longer contains `%s`' % (F, ms['_step'].lineno, wnt))
 
     # ---- mnacpts.py ---------------------------------------------------------------
     def load_cpts(self):
